@@ -173,6 +173,7 @@ type connState struct {
 	saslConv any
 	saslRaw bool // after a v0 handshake: raw length-prefixed tokens
 	reqs    int
+	lastFrame map[[2]int16][]byte // last response frame per (api key, version)
 }
 
 // FaultCfg is the per-run fault configuration (swarm).
@@ -184,6 +185,10 @@ type FaultCfg struct {
 	Slow           int
 	Stall          int
 	ErrorCode      int
+	// StaleResponse: before the real response a duplicate of the previous
+	// response of the same API on this connection is delivered (a replayed /
+	// left-over frame); a client must reject it by its correlation id
+	StaleResponse int
 	SlowMin, SlowMax time.Duration
 	StallReset       time.Duration // a stalled connection is reset by the broker after this long (default 8s)
 	// which api keys are eligible (nil = all except ApiVersions/SASL)
@@ -453,6 +458,18 @@ func (b *Broker) respond(c *Conn, st *connState, r *Req, body rc.Msg) {
 			st.busy = false
 			return
 		}
+		key := [2]int16{r.Hdr.APIKey, r.Hdr.APIVersion}
+		if r.Fault == "stale-response" {
+			if old := st.lastFrame[key]; old != nil {
+				c.Deliver(old)
+			} else {
+				cl.S.Stats["fault:stale-response"]--
+			}
+		}
+		if st.lastFrame == nil {
+			st.lastFrame = map[[2]int16][]byte{}
+		}
+		st.lastFrame[key] = frame
 		c.Deliver(frame)
 		r.RespFull = true
 		r.RespFullAt = cl.S.Now()
@@ -480,7 +497,7 @@ func (c *Cluster) drawFault(r *Req) string {
 	if f.Max > 0 && f.fired >= f.Max {
 		return ""
 	}
-	total := f.CutBeforeApply + f.CutAfterApply + f.CutInResponse + f.Slow + f.Stall + f.ErrorCode
+	total := f.CutBeforeApply + f.CutAfterApply + f.CutInResponse + f.Slow + f.Stall + f.ErrorCode + f.StaleResponse
 	if total == 0 {
 		return ""
 	}
@@ -491,7 +508,7 @@ func (c *Cluster) drawFault(r *Req) string {
 		n string
 		p int
 	}{{"cut-before-apply", f.CutBeforeApply}, {"cut-after-apply", f.CutAfterApply}, {"cut-in-response", f.CutInResponse},
-		{"slow", f.Slow}, {"stall", f.Stall}, {"error-code", f.ErrorCode}}
+		{"slow", f.Slow}, {"stall", f.Stall}, {"error-code", f.ErrorCode}, {"stale-response", f.StaleResponse}}
 	for _, kd := range kinds {
 		if x < kd.p {
 			f.fired++
